@@ -29,7 +29,9 @@ RULE = (
 )
 ASSUMPTIONS = [
     "HA core dispatches bus events, MQTT messages (fake broker) and webhooks (HA's real dispatcher) in call order",
-    "one webhook id is used by one decorator only (sharing an id between functions is not documented)",
+    "webhook ids are shared between decorators and functions like event types and topics (pyscript keeps one "
+    "Home Assistant registration per id and fans out; the note in the documentation only excludes sharing an id "
+    "with a Home Assistant automation)",
     "order is judged per decorator; filters that suspend are not generated",
     "a run cancelled by the harness is exempt from the 'reaches its end' check, nothing else is",
 ]
@@ -119,8 +121,9 @@ def gen(rng: random.Random, tier: str) -> dict:
             elif kind == "mqtt":
                 target = rng.choice(TOPICS)
             else:
+                # webhook ids are shared between decorators and functions like event types and topics
                 hook_n += 1
-                target = f"hook{hook_n}"
+                target = rng.choice(["hook1", "hook1", "hook2", f"hook{hook_n + 2}"])
             kw = {"dec": di}
             if rng.random() < 0.15:
                 kw["extra"] = rng.choice(["x", 5])
